@@ -22,6 +22,7 @@ var c10Cfg = genCfg{
 	windowed: true,
 	timeouts: []time.Duration{time.Hour, time.Hour, time.Duration(math.MaxInt64), 290 * 365 * 24 * time.Hour},
 	maxMax:   8, maxOps: 70, raw: true, nilPush: true, endClose: true, gapBias: true,
+	midClose: true, // "outside Close" includes the calls made after a Close: the Reassembler goes on accepting pushes
 }
 
 func propC10(h History) error {
@@ -31,6 +32,7 @@ func propC10(h History) error {
 	}
 	bk := newBook(h)
 	overflow, waited := false, false
+	maxBuf := 0
 	for i, o := range h.Ops {
 		st := &tr.Steps[i]
 		if isPush(o) && st.Err == nil {
@@ -56,6 +58,7 @@ func propC10(h History) error {
 			}
 			delete(bk.pending, seq)
 		}
+		maxBuf = max(maxBuf, len(bk.pending))
 		if o.K == opPush || o.K == opPushRaw || o.K == opNil || o.K == opPushBad {
 			if len(bk.pending) > h.MaxInFlight {
 				return fmt.Errorf("op %d (%s): %d events remain buffered after the push, maxInFlight is %d", i, o.K, len(bk.pending), h.MaxInFlight)
@@ -70,6 +73,14 @@ func propC10(h History) error {
 				}
 			}
 		}
+	}
+	switch {
+	case maxBuf > 256:
+		hC10.Class("history-with-more-than-256-buffered")
+	case maxBuf > 64:
+		hC10.Class("history-with-more-than-64-buffered")
+	case maxBuf > 16:
+		hC10.Class("history-with-more-than-16-buffered")
 	}
 	if overflow {
 		hC10.Class("history-with-overflow-eviction")
@@ -95,9 +106,6 @@ func propC10Timed(h History) error {
 	bk := newBook(h)
 	early, timed := false, false
 	for i, o := range h.Ops {
-		if o.K == opClose {
-			break // the property speaks about deliveries outside Close
-		}
 		st := &tr.Steps[i]
 		if isPush(o) && st.Err == nil {
 			bk.notePush(i, o, st)
@@ -112,6 +120,7 @@ func propC10Timed(h History) error {
 				continue
 			}
 			switch {
+			case o.K == opClose: // the property speaks about deliveries outside Close
 			case e.complete:
 			case len(bk.pending) > h.MaxInFlight:
 			case T > 0 && !st.T1.After(e.createdT0.Add(T)):
